@@ -71,8 +71,8 @@ fn compare<T: PartialEq + std::fmt::Debug, E2: ErrView>(
     flavour: &str,
     concrete: Result<T, String>,
     erased: Result<T, E2>,
-    f1: (u64, u64),
-    f2: (u64, u64),
+    f1: vh::rngs::Fp,
+    f2: vh::rngs::Fp,
 ) -> Result<(), Fail> {
     note(flavour);
     match (&concrete, &erased) {
@@ -95,7 +95,7 @@ fn compare<T: PartialEq + std::fmt::Debug, E2: ErrView>(
     if f1 != f2 {
         return Err(Fail::new(
             format!("{trait_name}/erased-random-stream-differs"),
-            format!("{flavour}: the concrete call drew {} words (next {:#x}), the erased call {} words (next {:#x})", f1.0, f1.1, f2.0, f2.1),
+            format!("{flavour}: the concrete call left the generator at {f1:?}, the erased call at {f2:?} (words drawn, next word, hash of the sequence of next_u32 / next_u64 / fill_bytes(len) calls)"),
         ));
     }
     Ok(())
@@ -191,6 +191,39 @@ struct SelCase {
     results: Vec<Vec<i64>>,
     spec: Spec,
     seed: u64,
+    /// entry point the probe selector draws through (`draw_mix`); it fails when style % 7 == 6
+    #[serde(default)]
+    style: u8,
+}
+
+/// a selector that draws through a chosen generator entry point and picks by what it drew
+struct DrawSel {
+    style: u8,
+}
+impl Selector<PopS> for DrawSel {
+    type Error = ProbeFail;
+    fn select<'pop, G: Rng + ?Sized>(&self, pop: &'pop PopS, rng: &mut G) -> Result<&'pop Ind<R>, ProbeFail> {
+        let w = vh::rngs::draw_mix(rng, self.style);
+        if self.style % 7 == 6 || pop.is_empty() {
+            return Err(ProbeFail(3));
+        }
+        Ok(&pop[(w % pop.len() as u64) as usize])
+    }
+}
+struct DrawSelEnv<'a> {
+    pop: &'a PopS,
+    style: u8,
+    seed: u64,
+}
+fn t_sel_probe<S2>(erased: &S2, flavour: &str, env: &DrawSelEnv<'_>) -> Result<(), Fail>
+where
+    S2: Selector<PopS>,
+    S2::Error: ErrView,
+{
+    let (mut r1, mut r2) = (Counting::new(env.seed), Counting::new(env.seed));
+    let Ok(a) = guarded(|| DrawSel { style: env.style }.select(env.pop, &mut r1).map(|i| std::ptr::from_ref::<Ind<R>>(i)).map_err(|e| e.to_string())) else { return Ok(()) };
+    let b = match guarded(|| erased.select(env.pop, &mut r2).map(|i| std::ptr::from_ref::<Ind<R>>(i))) { Ok(b) => b, Err(p) => return Err(Fail::new("Selector/erased-form-panics", format!("{flavour}: the concrete call returned {a:?} but the erased form panicked: {p}"))) };
+    compare("Selector", flavour, a, b, r1.fingerprint(), r2.fingerprint())
 }
 struct SelEnv<'a> {
     pop: &'a PopS,
@@ -217,6 +250,10 @@ fn sel_oracle(c: &SelCase, probe: &mut Probe) -> Result<(), Fail> {
     };
     let mk = || build::<R>(&c.spec).unwrap_or(Sel::Best);
     both_errors!(dyn_sel, SelErr, mk(), t_sel, &env, "Selector");
+    {
+        let env = DrawSelEnv { pop: &pop, style: c.style, seed: c.seed };
+        both_errors!(dyn_sel, ProbeFail, DrawSel { style: c.style }, t_sel_probe, &env, "Selector");
+    }
     let mut r = Counting::new(c.seed);
     let _ = guarded(|| concrete.select(&pop, &mut r).is_ok());
     probe.nontrivial = r.words > 0;
@@ -227,12 +264,14 @@ fn sel_oracle(c: &SelCase, probe: &mut Probe) -> Result<(), Fail> {
 
 struct ProbeMut {
     fail: bool,
+    style: u8,
 }
 impl Mutator<Vec<bool>> for ProbeMut {
     type Error = ProbeFail;
     fn mutate<G: Rng + ?Sized>(&self, mut g: Vec<bool>, rng: &mut G) -> Result<Vec<bool>, ProbeFail> {
-        let w = rng.next_u64();
+        let w = vh::rngs::draw_mix(rng, self.style);
         g.push(w & 1 == 1);
+        g.push(w.count_ones() % 2 == 1);
         if self.fail {
             Err(ProbeFail(1))
         } else {
@@ -248,6 +287,9 @@ struct GenomeCase {
     rate: f32,
     fail: bool,
     seed: u64,
+    /// which generator entry point the probe implementations draw through (`draw_mix`)
+    #[serde(default)]
+    style: u8,
 }
 struct MutEnv<'a, M> {
     concrete: &'a M,
@@ -270,13 +312,16 @@ where
 
 struct ProbeRec {
     fail: bool,
+    style: u8,
 }
 impl Recombinator<[Vec<bool>; 2]> for ProbeRec {
     type Output = Vec<bool>;
     type Error = ProbeFail;
     fn recombine<G: Rng + ?Sized>(&self, [mut a, b]: [Vec<bool>; 2], rng: &mut G) -> Result<Vec<bool>, ProbeFail> {
         a.extend(b);
-        a.push(rng.next_u32() & 1 == 1);
+        let w = vh::rngs::draw_mix(rng, self.style.wrapping_add(7));
+        a.push(w & 1 == 1);
+        a.push(w.count_ones() % 2 == 1);
         if self.fail {
             Err(ProbeFail(2))
         } else {
@@ -325,9 +370,9 @@ fn genome_oracle(c: &GenomeCase, probe: &mut Probe) -> Result<(), Fail> {
         both_errors!(dyn_mut, GenomeSizeConversionError, WithOneOverLength, t_mut, &env, "Mutator");
     }
     {
-        let m = ProbeMut { fail: c.fail };
+        let m = ProbeMut { fail: c.fail, style: c.style };
         let env = MutEnv { concrete: &m, c };
-        both_errors!(dyn_mut, ProbeFail, ProbeMut { fail: c.fail }, t_mut, &env, "Mutator");
+        both_errors!(dyn_mut, ProbeFail, ProbeMut { fail: c.fail, style: c.style }, t_mut, &env, "Mutator");
     }
     // recombinators
     {
@@ -341,9 +386,9 @@ fn genome_oracle(c: &GenomeCase, probe: &mut Probe) -> Result<(), Fail> {
         both_errors!(dyn_rec, DifferentGenomeLength, UniformXo, t_rec, &env, "Recombinator");
     }
     {
-        let m = ProbeRec { fail: c.fail };
+        let m = ProbeRec { fail: c.fail, style: c.style };
         let env = MutEnv { concrete: &m, c };
-        both_errors!(dyn_rec, ProbeFail, ProbeRec { fail: c.fail }, t_rec, &env, "Recombinator");
+        both_errors!(dyn_rec, ProbeFail, ProbeRec { fail: c.fail, style: c.style }, t_rec, &env, "Recombinator");
     }
     // operators
     {
@@ -352,9 +397,9 @@ fn genome_oracle(c: &GenomeCase, probe: &mut Probe) -> Result<(), Fail> {
         both_errors!(dyn_op, Infallible, Mutate::new(WithRate::new(c.rate)), t_op, &env, "Operator");
     }
     {
-        let m = Mutate::new(ProbeMut { fail: c.fail });
+        let m = Mutate::new(ProbeMut { fail: c.fail, style: c.style });
         let env = MutEnv { concrete: &m, c };
-        both_errors!(dyn_op, ProbeFail, Mutate::new(ProbeMut { fail: c.fail }), t_op, &env, "Operator");
+        both_errors!(dyn_op, ProbeFail, Mutate::new(ProbeMut { fail: c.fail, style: c.style }), t_op, &env, "Operator");
     }
     {
         let m = Identity;
@@ -363,9 +408,9 @@ fn genome_oracle(c: &GenomeCase, probe: &mut Probe) -> Result<(), Fail> {
     }
     {
         // a composition: its error type cannot be named, so only the boxed error form is exercised
-        let m = Mutate::new(WithRate::new(c.rate)).then(Mutate::new(ProbeMut { fail: c.fail }));
+        let m = Mutate::new(WithRate::new(c.rate)).then(Mutate::new(ProbeMut { fail: c.fail, style: c.style }));
         let env = MutEnv { concrete: &m, c };
-        autos!(dyn_op, BoxErr, Mutate::new(WithRate::new(c.rate)).then(Mutate::new(ProbeMut { fail: c.fail })), t_op_unnamed, &env, "Operator", "boxed");
+        autos!(dyn_op, BoxErr, Mutate::new(WithRate::new(c.rate)).then(Mutate::new(ProbeMut { fail: c.fail, style: c.style })), t_op_unnamed, &env, "Operator", "boxed");
     }
     probe.nontrivial = !c.genome.is_empty();
     if c.genome.len() != c.other.len() {
@@ -420,13 +465,14 @@ impl StdError for CmErr {}
 
 struct Cm {
     fail: bool,
+    style: u8,
 }
 impl ChildMaker<PopS, Sel<R>> for Cm {
     type Error = CmErr;
     fn make_child<G: Rng + ?Sized>(&self, rng: &mut G, population: &PopS, selector: &Sel<R>) -> Result<Ind<R>, CmErr> {
         let parent = selector.select(population, rng).map_err(|e| CmErr(e.to_string()))?;
         let mut child = parent.clone();
-        child.genome = child.genome.wrapping_mul(31).wrapping_add(rng.next_u32() % 1000);
+        child.genome = child.genome.wrapping_mul(31).wrapping_add((vh::rngs::draw_mix(rng, self.style) % 1000) as u32);
         if self.fail {
             Err(CmErr("scripted".into()))
         } else {
@@ -439,6 +485,7 @@ struct CmEnv<'a> {
     selector: &'a Sel<R>,
     fail: bool,
     seed: u64,
+    style: u8,
 }
 fn t_cm<S2>(erased: &S2, flavour: &str, env: &CmEnv<'_>) -> Result<(), Fail>
 where
@@ -446,7 +493,7 @@ where
     S2::Error: ErrView,
 {
     let (mut r1, mut r2) = (Counting::new(env.seed), Counting::new(env.seed));
-    let Ok(a) = guarded(|| Cm { fail: env.fail }.make_child(&mut r1, env.pop, env.selector).map_err(|e| e.to_string())) else { return Ok(()) }; // a panicking concrete implementation is not this property's business
+    let Ok(a) = guarded(|| Cm { fail: env.fail, style: env.style }.make_child(&mut r1, env.pop, env.selector).map_err(|e| e.to_string())) else { return Ok(()) }; // a panicking concrete implementation is not this property's business
     let b = match guarded(|| erased.make_child(&mut r2, env.pop, env.selector)) { Ok(b) => b, Err(p) => return Err(Fail::new("ChildMaker/erased-form-panics", format!("{flavour}: the concrete call returned {a:?} but the erased form panicked: {p}"))) };
     compare("ChildMaker", flavour, a, b, r1.fingerprint(), r2.fingerprint())
 }
@@ -454,6 +501,8 @@ where
 struct CmCase {
     sel: SelCase,
     fail: bool,
+    #[serde(default)]
+    style: u8,
 }
 fn cm_oracle(c: &CmCase, probe: &mut Probe) -> Result<(), Fail> {
     let pop = population::<R>(&c.sel.results, |r| Score(r.iter().sum()));
@@ -463,8 +512,9 @@ fn cm_oracle(c: &CmCase, probe: &mut Probe) -> Result<(), Fail> {
         selector: &selector,
         fail: c.fail,
         seed: c.sel.seed,
+        style: c.style,
     };
-    both_errors!(dyn_cm, CmErr, Cm { fail: c.fail }, t_cm, &env, "ChildMaker");
+    both_errors!(dyn_cm, CmErr, Cm { fail: c.fail, style: c.style }, t_cm, &env, "ChildMaker");
     probe.nontrivial = !pop.is_empty();
     Ok(())
 }
@@ -476,9 +526,9 @@ fn sel_strategy() -> BoxedStrategy<SelCase> {
         .prop_flat_map(|results| {
             let n = results.len();
             let m = results.iter().map(Vec::len).min().unwrap_or(0);
-            (Just(results), spec_strategy(n, m, 2), any::<u64>())
+            (Just(results), spec_strategy(n, m, 2), any::<u64>(), 0u8..vh::rngs::DRAW_STYLES)
         })
-        .prop_map(|(results, spec, seed)| SelCase { results, spec, seed })
+        .prop_map(|(results, spec, seed, style)| SelCase { results, spec, seed, style })
         .boxed()
 }
 
@@ -489,8 +539,9 @@ fn genome_strategy() -> BoxedStrategy<GenomeCase> {
         prop_oneof![Just(0.0f32), Just(1.0f32), 0.0f32..=1.0],
         prop::bool::weighted(0.25),
         any::<u64>(),
+        0u8..vh::rngs::DRAW_STYLES,
     )
-        .prop_map(|(genome, other, rate, fail, seed)| {
+        .prop_map(|(genome, other, rate, fail, seed, style)| {
             let other = other.unwrap_or_else(|| genome.iter().map(|b| !b).collect());
             GenomeCase {
                 genome,
@@ -498,6 +549,7 @@ fn genome_strategy() -> BoxedStrategy<GenomeCase> {
                 rate,
                 fail,
                 seed,
+                style,
             }
         })
         .boxed()
@@ -537,7 +589,7 @@ fn main() {
     ctx.run_prop(
         "child_maker_flavours",
         n_cm,
-        || (sel_strategy(), prop::bool::weighted(0.25)).prop_map(|(sel, fail)| CmCase { sel, fail }),
+        || (sel_strategy(), prop::bool::weighted(0.25), 0u8..vh::rngs::DRAW_STYLES).prop_map(|(sel, fail, style)| CmCase { sel, fail, style }),
         |c, p| {
             let r = cm_oracle(c, p);
             drain(p);
